@@ -293,6 +293,7 @@ package ircserver
 //@   requires owner: wfOwner(i)
 //@   requires session: s.Id in i.sessions && i.sessions[s.Id] == s && !s.deleted
 //@   requires auth: wfAuth(i) && wfLogin(i)
+//@   requires othersalive: forall x robust.Id :: x in i.sessions && i.sessions[x] != s && i.sessions[x].deleted ==> s.Server || s.Operator
 //@   ensures auth: wfAuth(i)
 //@   ensures login: wfLogin(i)
 //@   ensures owner: wfOwner(i)
@@ -303,7 +304,11 @@ package ircserver
 //@   ensures member: wfMember(i)
 //@   ensures reply: replyOK(reply)
 //@   ensures keeps: forall x robust.Id :: old(x in i.sessions) ==> x in i.sessions && i.sessions[x] == old(i.sessions[x])
+//@   ensures onlyself: forall x robust.Id :: x in i.sessions && i.sessions[x] != s && i.sessions[x].deleted ==> s.Server || s.Operator
+//@   ensures rolekept: forall x robust.Id :: old(x in i.sessions) && old(i.sessions[x].Server) ==> i.sessions[x].Server
 //@   modifies *
+//@   loopinv rolekept: forall x robust.Id :: old(x in i.sessions) && old(i.sessions[x].Server) ==> i.sessions[x].Server
+//@   loopinv onlyself: forall x robust.Id :: x in i.sessions && i.sessions[x] != s && i.sessions[x].deleted ==> s.Server || s.Operator
 //@   loopinv state: wfMid(i) && wfAuth(i) && wfLogin(i) && replyOK(reply)
 //@   loopinv session: s.Id in i.sessions && i.sessions[s.Id] == s && !s.deleted && (old(s.loggedIn) ==> s.loggedIn)
 //@   loopinv keeps: forall x robust.Id :: old(x in i.sessions) ==> x in i.sessions && i.sessions[x] == old(i.sessions[x])
@@ -329,6 +334,8 @@ package ircserver
 //@   ensures member: wfMember(i)
 //@   ensures owner: wfOwner(i)
 //@   ensures reply: result != nil && replyOK(result)
+//@   ensures keeps: forall x robust.Id :: old(x in i.sessions) ==> x in i.sessions && i.sessions[x] == old(i.sessions[x])
+//@   ensures onlyself: forall x robust.Id :: x in i.sessions && i.sessions[x] != i.sessions[old(msg.Session)] && i.sessions[x].deleted ==> i.sessions[old(msg.Session)].Server || i.sessions[old(msg.Session)].Operator
 //@   modifies *
 
 // ---------------------------------------------------------------------------
@@ -376,6 +383,9 @@ package ircserver
 //@   requires member: wfMember(i)
 //@   requires owner: wfOwner(i)
 //@   requires session: s.Id in i.sessions && i.sessions[s.Id] == s && !s.deleted && s.Id.Reply == 0
+//@   requires othersalive: forall x robust.Id :: x in i.sessions && i.sessions[x] != s && i.sessions[x].deleted ==> s.Server || s.Operator
+//@   ensures onlyself: forall x robust.Id :: x in i.sessions && i.sessions[x] != s && i.sessions[x].deleted ==> s.Server || s.Operator
+//@   ensures rolekept: forall x robust.Id :: old(x in i.sessions) && old(i.sessions[x].Server) ==> i.sessions[x].Server
 //@   requires auth: wfAuth(i) && wfLogin(i)
 //@   ensures auth: wfAuth(i)
 //@   ensures login: wfLogin(i)
@@ -510,6 +520,8 @@ package ircserver
 //@ func IRCServer.cmdServerJoin
 //@   requires conforming-params: len(msg.Params) >= 1
 //@   requires conforming-prefix: msg.Prefix != nil
+//@   loop range strings.Split(msg.Params[0], ",")
+//@     invariant msg.Prefix != nil
 //@ func IRCServer.cmdServerPart
 //@   requires conforming-params: len(msg.Params) >= 1
 //@   requires conforming-prefix: msg.Prefix != nil
@@ -527,15 +539,23 @@ package ircserver
 //@   requires conforming-prefix: msg.Prefix != nil
 //@ func IRCServer.cmdServerSvsjoin
 //@   requires conforming-prefix: msg.Prefix != nil
+//@   requires role: s.Server
+//@   requires alive: wfAlive(i)
 //@ func IRCServer.cmdServerSvspart
 //@   requires conforming-prefix: msg.Prefix != nil
+// The "unset the topic" branch tests len(msg.Params) == 2 but the command is registered with
+// MinParams 3: that branch (and its return) is dead code, not a vacuous proof.
 //@ func IRCServer.cmdServerTopic
 //@   requires conforming-prefix: msg.Prefix != nil
+//@   opt dead = return#3
 //@ func IRCServer.cmdServerKill
 //@   requires conforming-prefix: msg.Prefix != nil
+//@   requires role: s.Server
+//@   requires alive: wfAlive(i)
 
 // services QUIT: without prefix the link itself goes away together with all its pseudo-clients
 //@ func IRCServer.cmdServerQuit
+//@   requires role: s.Server
 //@   requires alive: wfAlive(i)
 //@   requires api: s.Id.Reply == 0
 //@   loop range i.sessions
